@@ -757,8 +757,10 @@ func (f *Frame) applyContract(c *Contract, fn *types.Func, recv Val, args []Val,
 	for i, r := range c.Requires {
 		goal := env.evalBool(r.E)
 		name := fmt.Sprintf("%s#call%d.pre:%d(%s)", f.key, ord, i+1, c.Name)
+		f.curGroup = clauseGroup(r.Props)
 		f.oblige(st, "callpre", name, call.Pos(), goal, r.Text)
-		st.assume(goal)
+		f.curGroup = ""
+		st.assume(inGroup(goal, clauseGroup(r.Props)))
 	}
 	pre := st.clone()
 	// havoc the modifies set
@@ -796,10 +798,10 @@ func (f *Frame) applyContract(c *Contract, fn *types.Func, recv Val, args []Val,
 		env2.vars["result"] = results[0]
 	}
 	for _, e := range c.Ensures {
-		if len(e.Props) > 0 {
+		if len(propTags(e.Props)) > 0 {
 			continue // property-tagged clauses are proof obligations of that property only
 		}
-		st.assume(env2.evalBool(e.E))
+		st.assume(inGroup(env2.evalBool(e.E), clauseGroup(e.Props)))
 	}
 	if c.Trusted {
 		in.note("assumed contract (trusted, body not verified): " + c.Pkg + "." + c.Name)
@@ -1288,7 +1290,7 @@ func (f *Frame) runAsserts(ord int, st *State, call *ast.CallExpr) {
 		f.assertHit[ord] = true
 	}
 	for i, a := range f.contract.Asserts[ord] {
-		if len(a.Props) > 0 && !hasProp(a.Props, currentProp) {
+		if pt := propTags(a.Props); len(pt) > 0 && !hasProp(pt, currentProp) {
 			continue // property-tagged assertion: proved (and assumed) only under that property
 		}
 		env := f.specEnvAt(st, call.End())
@@ -1301,8 +1303,10 @@ func (f *Frame) runAsserts(ord int, st *State, call *ast.CallExpr) {
 				}
 			}
 		}
+		f.curGroup = clauseGroup(a.Props)
 		f.oblige(st, "assert", oname, call.Pos(), goal, a.Text)
-		st.assume(goal)
+		f.curGroup = ""
+		st.assume(inGroup(goal, clauseGroup(a.Props)))
 	}
 }
 
